@@ -1,4 +1,6 @@
 """C12 — mkdir_all creates exactly the missing directories and converges under races."""
+import re
+
 from ..cfg import cfg_of
 from ..common import *
 from ..cut import bool_edges, origin_keys, result_edges
@@ -223,6 +225,100 @@ def r6_partial_conversion(ctx):
     return out
 
 
+PURE = re.compile(r"(PartialEq::(eq|ne)$|<impl \[T\]>::contains$|syscalls::Error::errno$|OsStrExt::as_bytes$|::is_empty$|::len$|Try::branch$|::map_err$|::as_ref$|Deref::deref$|AsRef::as_ref$)")
+
+
+def _leaves(T, b, origins, depth=0, seen=None):
+    """Flatten a condition's provenance to the calls/parameters/constants it is computed from."""
+    seen = seen if seen is not None else set()
+    out = []
+    for o in origins:
+        k = o.key()
+        if k in seen or depth > 10:
+            continue
+        seen.add(k)
+        if o.kind == "expr" and o.stmt is not None:
+            for blk in b.blocks:
+                for si, s_ in enumerate(blk.stmts):
+                    if s_ is o.stmt:
+                        pl = s_.rv_place()
+                        if pl is not None:
+                            out += _leaves(T, b, T.origins(b, blk.idx, si, pl), depth + 1, seen)
+                        for op in s_.rv_operands():
+                            if op.place is not None:
+                                out += _leaves(T, b, T.origins_of_operand(b, blk.idx, si, op), depth + 1, seen)
+        elif o.kind == "call" and o.term.body is b and PURE.search(o.term.callee or ""):
+            for i in range(len(o.term.args)):
+                out += _leaves(T, b, T.origins_of_arg(o.term, i), depth + 1, seen)
+        else:
+            out.append(o)
+    return out
+
+
+def r7_refusals_in_loop(ctx):
+    """Convergence: inside the creation loop mkdir_all may refuse (synthesise an error) only because of the component
+    name, the errno of its own mkdirat, or the result of the step open.  A refusal computed from anything else it
+    observes about the directory (mode, owner, emptiness ...) fails callers that lost a mkdirat race to a concurrent
+    mkdir_all with other arguments -- the library documents that an existing directory is reused as it is."""
+    F = ctx.facts
+    T = ctx.tracer
+    out = []
+    b = F.body(MK)
+    cfg = cfg_of(b)
+    mk = list(b.calls("syscalls::mkdirat"))
+    loops = cfg.natural_loops()
+    inl = [(h, blks) for h, blks in loops.items() if mk and mk[0].bb in blks]
+    if not inl:
+        return [violated("C12.R7", "mkdir_all:creation-loop", b.where(), "mkdirat is not inside a loop (anchor drift)")]
+    h, blks = min(inl, key=lambda x: len(x[1]))
+    step = [t for t in b.calls("syscalls::openat") if t.bb in blks]
+    region = cfg.reachable(h, cut_nodes=[]) if False else None
+    # blocks executed as part of one iteration, including its error exits
+    body_starts = [e.dst for e in cfg.succ.get(h, []) if e.dst in blks]
+    region = set()
+    for st in body_starts:
+        region |= cfg.reachable(st, cut_nodes=[h])
+    cd = cfg.control_deps()
+    allowed_calls = {id(t) for t in mk + step}
+    n = 0
+    for x in sorted(region):
+        blk = b.blocks[x]
+        if blk.cleanup:
+            continue
+        for s_ in blk.stmts:
+            if not (s_.kind == "assign" and s_.rv["k"] == "agg" and s_.rv.get("adt") == "error::ErrorImpl"):
+                continue
+            n += 1
+            key = "mkdir_all:loop-refusal:%s:%d" % (s_.rv.get("variant"), sum(1 for i in out if i.key.startswith("mkdir_all:loop-refusal:%s" % s_.rv.get("variant"))))
+            bad = []
+            for (a, _ek) in cd.get(x, ()):
+                if a not in region and a != h:
+                    continue
+                term = b.blocks[a].term
+                if term.kind != "switch":
+                    continue
+                d = Operand(term.raw["d"])
+                if d.place is None:
+                    continue
+                for lf in _leaves(T, b, T.origins_of_operand(b, a, len(b.blocks[a].stmts), d)):
+                    if lf.kind == "const":
+                        continue
+                    if lf.kind == "call" and id(lf.term) in allowed_calls:
+                        continue
+                    if lf.kind == "call" and (lf.term.callee or "").startswith("std::iter::Iterator::next"):
+                        continue   # the component itself
+                    bad.append(lf)
+            w = "%s:%d" % (b.file, s_.line)
+            if bad:
+                out.append(violated("C12.R7", key, w, "mkdir_all refuses with %s depending on %s: concurrent mkdir_all callers (or a directory that already existed) make this call fail although the directory is there"
+                                    % (s_.rv.get("variant"), sorted({repr(x_) for x_ in bad})[:3])))
+            else:
+                out.append(holds("C12.R7", key, w, "refusal depends only on the component name / mkdirat errno / step open"))
+    if n == 0:
+        out.append(violated("C12.R7", "mkdir_all:loop-refusal", b.where(), "no error construction found in the creation loop (anchor drift)"))
+    return out
+
+
 RULES = [
     ("C12.R1", r1_mode_validation, 2, False),
     ("C12.R2", r2_creation_loop_inputs, 4, False),
@@ -230,4 +326,5 @@ RULES = [
     ("C12.R4", r4_step_open, 1, False),
     ("C12.R5", r5_returned_handle, 1, False),
     ("C12.R6", r6_partial_conversion, 1, False),
+    ("C12.R7", r7_refusals_in_loop, 2, False),
 ]
